@@ -45,14 +45,27 @@ V_DECLARE_INPUTS
 #define OP_SETMOVE 11
 #define OP_REHASH 12
 /* largest nitems with Table_Ideal_Size(nitems) <= NS (the size schedule itself is checked in OP_INIT) */
+/* MAXN_BELOW: largest nitems that fits the next smaller size (-1: none) */
 #if NS == 1
 #define MAXN 0
+#define MAXN_BELOW (-1)
+#define NS_UP 5
+#define NS_DOWN 0
 #elif NS == 5
 #define MAXN 4
+#define MAXN_BELOW 0
+#define NS_UP 11
+#define NS_DOWN 1
 #elif NS == 11
 #define MAXN 9
+#define MAXN_BELOW 4
+#define NS_UP 23
+#define NS_DOWN 5
 #elif NS == 23
 #define MAXN 19
+#define MAXN_BELOW 9
+#define NS_UP 53
+#define NS_DOWN 11
 #endif
 
 static int64_t slot_key(struct Table* t, size_t i) { return ((struct Elem*)Table_Key(t, i))->val; }
@@ -68,7 +81,11 @@ static _Bool inv(struct Table* t, size_t ns) {
     occ++;
     int64_t k = slot_key(t, i);
     if (k < 0 || k >= ELEM_D) return 0;
+#if defined(HBITS) || defined(HFULL)
     if (h != ELEM_H[k] % ns + 1) return 0;              /* stored home = hash % nslots + 1 */
+#else
+    if (h != (ELEM_H[k] < ns ? ELEM_H[k] : ELEM_H[k] % ns) + 1) return 0;
+#endif
     uint64_t p = Table_Probe(t, i, h);
     for (size_t d = 0; d < ns; d++) {                    /* robin-hood: no hole, no poorer entry, between home and here */
       if (d >= p) break;
@@ -120,17 +137,36 @@ static void snapshot(struct Table* t) {
 }
 void verif_on_throw(void* obj) {
   V_ASSERT(expect_throw != NULL, "operation raised an exception although its arguments are in contract");
+  if (expect_throw == NULL) return;
   V_ASSERT(obj == expect_throw, "the documented exception is raised (KeyError for an absent key)");
+  if (obj != expect_throw) return;      /* keeps the state comparison out of every other throw site */
   V_ASSERT(words_equal(snap_struct, snap_t, sizeof(struct Table)), "failed operation leaves the Table struct unchanged");
   if (snap_t->data) V_ASSERT(words_equal(snap_data, snap_t->data, NS * Table_Step(snap_t)), "failed operation leaves the slot storage unchanged");
   V_ASSERT(snap_live == elem_live_count() && elem_ledger_ok, "failed operation finalises nothing");
   V_WITNESS_OPT("throw path reached");
 }
 
+/* assume-guarantee split: in the SET / REM / RESIZE obligations calls to Table_Rehash are redirected here
+ * (goto-instrument --replace-calls); Table_Rehash itself is discharged by the OP_REHASH obligations for every
+ * pair of sizes on the schedule.  The stub records the request; the harness checks it against the schedule. */
+static int rehash_calls = 0; static size_t rehash_size = 0;
+void verif_rehash_stub(struct Table* t, size_t new_size) { rehash_calls++; rehash_size = new_size; }
+
 static struct Table* arbitrary_table(void) {
-  struct Table* t = new_raw(Table, Elem, Elem);
-  free(t->data);
+  /* the Table object is laid out directly (header + struct); the constructor is covered by OP_INIT */
+  static struct { struct Header h; struct Table t; } tobj;
+  struct Table* t = header_init(&tobj.h, Table, AllocHeap);
+  t->ktype = Elem; t->vtype = Elem; t->ksize = 16; t->vsize = 16;
+  t->sspace0 = calloc(1, Table_Step(t)); t->sspace1 = calloc(1, Table_Step(t));
+#if OP == OP_ITER
+  /* guard band: cursor arithmetic forms one-before-first pointers (Table_Iter_Prev: curr - step, then
+   * curr < first); cbmc orders pointers below an object's start ABOVE it, so the storage gets one
+   * record of slack either side.  A cursor pointing into the slack is a harness assertion failure. */
+  { char* base = calloc(NS + 2, Table_Step(t)); V_ASSUME(base != NULL); t->data = base + Table_Step(t); }
+  t->nslots = NS;
+#else
   t->nslots = NS; t->data = calloc(NS, Table_Step(t));
+#endif
   V_ASSUME(t->data != NULL && t->sspace0 != NULL && t->sspace1 != NULL);
   size_t n = 0;
   for (size_t i = 0; i < NS; i++) {
@@ -147,7 +183,9 @@ static struct Table* arbitrary_table(void) {
   }
   t->nitems = n;
   V_ASSUME(inv(t, NS));
+#if OP != OP_REHASH
   V_ASSUME(n <= MAXN);                      /* Table_Ideal_Size(nitems) <= nslots: what Table_Set / Table_Rem / Table_Resize maintain */
+#endif
   return t;
 }
 
@@ -156,11 +194,20 @@ V_HARNESS {
   for (int i = 0; i < ELEM_D; i++) {
 #ifdef HBITS
     V_ASSUME(IN.H[i] < ((uint64_t)1 << HBITS));     /* stated bound on the hash values */
+#elif !defined(HFULL)
+    V_ASSUME(IN.H[i] < NS);                         /* stated bound: hash values are slot residues (the unit uses hash % nslots only) */
 #endif
     ELEM_H[i] = IN.H[i];
   }
   int64_t q = IN.q, k = IN.k, v = IN.v;
   V_ASSUME(q >= 0 && q < ELEM_D && k >= 0 && k < ELEM_D);
+  struct Elem* pk = $(Elem, k, 0);   /* the key operated on */
+#ifdef HOME
+  /* case split on the home slot of the key operated on: its hash is the CONSTANT HOME, so every slot
+   * index computed by the unit folds; all HOME in 0..NS-1 are separate obligations */
+  V_ASSUME(ELEM_H[k] == HOME);
+  elem_probe_key = pk; elem_probe_hash = HOME;
+#endif
 
 #if OP == OP_INIT
   /* base case: what the constructor builds satisfies the invariant */
@@ -171,10 +218,10 @@ V_HARNESS {
   V_ASSERT(Table_Iter_Init(t) == Terminal && Table_Iter_Last(t) == Terminal, "new Table: iteration is empty");
   V_ASSERT(Table_Ideal_Size(0) == 1 && Table_Ideal_Size(1) == 5 && Table_Ideal_Size(4) == 5 && Table_Ideal_Size(5) == 11 &&
            Table_Ideal_Size(9) == 11 && Table_Ideal_Size(10) == 23, "size schedule 1,5,11,23 as the harness bounds assume");
-  Table_Set(t, $(Elem, k, 0), $(Elem, v, 0));
+  Table_Set(t, pk, $(Elem, v, 0));
   V_ASSERT(t->nslots == 5 && inv(t, 5) && t->nitems == 1 && owns(t, 5), "first set grows 1 -> 5 slots, invariant and ownership hold");
   int64_t gv = -1; V_ASSERT(model_get(t, 5, k, &gv) && gv == v, "first set binds the key");
-  V_ASSERT(((struct Elem*)Table_Get(t, $(Elem, k, 0)))->val == v && Table_Mem(t, $(Elem, k, 0)), "get/mem find it");
+  V_ASSERT(((struct Elem*)Table_Get(t, pk))->val == v && Table_Mem(t, pk), "get/mem find it");
 #else
   struct Table* t = arbitrary_table();
   size_t n = t->nitems;
@@ -186,7 +233,7 @@ V_HARNESS {
   /* the insertion kernel alone (what Table_Set, Table_New, Table_Assign and every rehash step run):
    * precondition: at least one empty slot */
   V_ASSUME(n < NS);
-  Table_Set_Move(t, $(Elem, k, 0), $(Elem, v, 0), false);
+  Table_Set_Move(t, pk, $(Elem, v, 0), false);
   V_WITNESS("set_move completed");
   size_t n2 = n + (k_in ? 0 : 1);
   V_ASSERT(inv(t, NS), "set_move: representation invariant preserved");
@@ -196,72 +243,64 @@ V_HARNESS {
   else V_ASSERT(post_m == pre_m && (!pre_m || post_v == pre_v), "set_move: every other binding is untouched");
   V_ASSERT(elem_ledger_ok && owns(t, NS), "set_move: every stored element owned exactly once, replaced ones finalised, none lost (C05)");
 
+#elif OP == OP_REHASH
+  /* Table_Rehash NS -> NS2 from an arbitrary valid state (any occupancy that fits the target):
+   * the growth step of Table_Set, the shrink step of Table_Rem and the body of Table_Resize */
+  V_ASSUME(n < NS2);
+  Table_Rehash(t, NS2);
+  V_WITNESS("rehash completed");
+  V_ASSERT(inv(t, NS2), "rehash: representation invariant holds in the new storage");
+  int64_t post_v = 0; _Bool post_m = model_get(t, NS2, q, &post_v);
+  V_ASSERT(post_m == pre_m && (!pre_m || post_v == pre_v) && t->nitems == n, "rehash: the map is unchanged");
+  V_ASSERT(elem_ledger_ok && owns(t, NS2), "rehash: elements moved, not copied, re-constructed or dropped (C05)");
+
 #elif OP == OP_SET
-  Table_Set(t, $(Elem, k, 0), $(Elem, v, 0));
+  /* Table_Set = Table_Set_Move + Table_Resize_More; the rehash call is the stub */
+  Table_Set(t, pk, $(Elem, v, 0));
   V_WITNESS("set completed");
   size_t n2 = n + (k_in ? 0 : 1);
-#if NS == 1
-  V_ASSERT(t->nslots == (n2 == 0 ? 1 : 5), "set: slot count follows the size schedule");
-  #define NS2 5
-#elif NS == 5
-  V_ASSERT(t->nslots == (n2 <= 4 ? 5 : 11), "set: slot count follows the size schedule");
-  #define NS2 11
-#elif NS == 11
-  V_ASSERT(t->nslots == (n2 <= 9 ? 11 : 23), "set: slot count follows the size schedule");
-  #define NS2 23
-#endif
-  _Bool grown = t->nslots != NS;
-  V_ASSERT(grown ? inv(t, NS2) : inv(t, NS), "set: representation invariant preserved (also across growth rehash)");
+  V_ASSERT(inv(t, NS), "set: representation invariant holds before any growth rehash");
   V_ASSERT(t->nitems == n2 && Table_Len(t) == n2, "set: len counts bindings (update of an existing key does not add one)");
-  int64_t post_v = 0; _Bool post_m = grown ? model_get(t, NS2, q, &post_v) : model_get(t, NS, q, &post_v);
+  V_ASSERT(rehash_calls == (n2 > MAXN ? 1 : 0), "set: growth rehash requested exactly when the load limit is exceeded");
+  if (n2 > MAXN) V_ASSERT(rehash_size == NS_UP, "set: growth goes to the next size on the schedule");
+  int64_t post_v = 0; _Bool post_m = model_get(t, NS, q, &post_v);
   if (q == k) V_ASSERT(post_m && post_v == v, "set: the key is bound to the new value");
   else V_ASSERT(post_m == pre_m && (!pre_m || post_v == pre_v), "set: every other binding is untouched");
-  V_ASSERT(Table_Mem(t, $(Elem, q, 0)) == post_m, "set: mem agrees with the map afterwards");
-  if (post_m) V_ASSERT(((struct Elem*)Table_Get(t, $(Elem, q, 0)))->val == post_v, "set: get agrees with the map afterwards");
-  V_ASSERT(elem_ledger_ok && (grown ? owns(t, NS2) : owns(t, NS)), "set: every stored element owned exactly once, replaced ones finalised, none lost (C05)");
+  V_ASSERT(elem_ledger_ok && owns(t, NS), "set: every stored element owned exactly once, replaced ones finalised, none lost (C05)");
 
 #elif OP == OP_REM
   V_ASSUME(k_in);
-  Table_Rem(t, $(Elem, k, 0));
+  Table_Rem(t, pk);
   V_WITNESS("rem completed");
   size_t n2 = n - 1;
-#if NS == 5
-  V_ASSERT(t->nslots == (n2 == 0 ? 1 : 5), "rem: slot count follows the size schedule");
-  #define NS2 1
-#elif NS == 11
-  V_ASSERT(t->nslots == (n2 <= 4 ? 5 : 11), "rem: slot count follows the size schedule");
-  #define NS2 5
-#elif NS == 1
-  #define NS2 1
-#endif
-  _Bool shrunk = t->nslots != NS;
-  V_ASSERT(shrunk ? inv(t, NS2) : inv(t, NS), "rem: representation invariant preserved (also across shrink rehash)");
+  V_ASSERT(inv(t, NS), "rem: representation invariant holds (backward shift leaves no hole in a probe run)");
   V_ASSERT(t->nitems == n2 && Table_Len(t) == n2, "rem: len decreases by one");
-  int64_t post_v = 0; _Bool post_m = shrunk ? model_get(t, NS2, q, &post_v) : model_get(t, NS, q, &post_v);
+  V_ASSERT(rehash_calls == ((int64_t)n2 <= MAXN_BELOW ? 1 : 0), "rem: shrink rehash requested exactly when the contents fit the next smaller size");
+  if ((int64_t)n2 <= MAXN_BELOW) V_ASSERT(rehash_size == NS_DOWN, "rem: shrink goes to the next smaller size on the schedule");
+  int64_t post_v = 0; _Bool post_m = model_get(t, NS, q, &post_v);
   if (q == k) V_ASSERT(!post_m, "rem: the key is gone");
   else V_ASSERT(post_m == pre_m && (!pre_m || post_v == pre_v), "rem: every other binding is untouched");
-  V_ASSERT(Table_Mem(t, $(Elem, q, 0)) == post_m, "rem: mem agrees with the map afterwards");
-  V_ASSERT(elem_ledger_ok && (shrunk ? owns(t, NS2) : owns(t, NS)), "rem: removed key and value finalised exactly once, the rest still owned (C05)");
+  V_ASSERT(elem_ledger_ok && owns(t, NS), "rem: removed key and value finalised exactly once, the rest still owned (C05)");
 
 #elif OP == OP_REM_ABSENT
   V_ASSUME(!k_in);
   snapshot(t); expect_throw = KeyError;
-  Table_Rem(t, $(Elem, k, 0));
+  Table_Rem(t, pk);
   V_ASSERT(0, "rem of an absent key must raise KeyError");
 
 #elif OP == OP_GET_ABSENT
   V_ASSUME(!k_in);
   snapshot(t); expect_throw = KeyError;
-  Table_Get(t, $(Elem, k, 0));
+  Table_Get(t, pk);
   V_ASSERT(0, "get of an absent key must raise KeyError");
 
 #elif OP == OP_GET
-  _Bool m = Table_Mem(t, $(Elem, q, 0));
+  _Bool m = Table_Mem(t, pk);
   V_WITNESS("mem computed");
-  V_ASSERT(m == pre_m, "mem agrees with the map for every key");
-  if (pre_m) {
-    struct Elem* g = Table_Get(t, $(Elem, q, 0));
-    V_ASSERT(g->val == pre_v, "get returns the bound value");
+  V_ASSERT(m == k_in, "mem agrees with the map for every key");
+  if (k_in) {
+    struct Elem* g = Table_Get(t, pk);
+    V_ASSERT(g->val == kv, "get returns the bound value");
     V_ASSERT(type_of(g) == Elem, "get returns an object of the value type (C19)");
   }
   V_ASSERT(inv(t, NS) && owns(t, NS), "lookups change nothing");
@@ -290,25 +329,23 @@ V_HARNESS {
   V_ASSERT(c == Terminal && ok && cntb == n, "backward iteration is the exact reverse: len keys, descending slots, then Terminal");
 
 #elif OP == OP_RESIZE
-  /* resize(n): n = 0 clears; n >= len rehashes to Ideal(n); the map is unchanged */
+  /* resize(n >= len, n > 0) = rehash to Ideal(n) (the rehash call is the stub); resize below len must raise */
   size_t rn = IN.n;
-  V_ASSUME(rn >= n && rn <= 9 && rn > 0);
+  V_ASSUME(rn > 0 && rn <= 19);
+  if (rn < n) { snapshot(t); expect_throw = FormatError; }
   Table_Resize(t, rn);
   V_WITNESS("resize completed");
-  V_ASSERT(t->nslots == (rn <= 4 ? 5 : 11), "resize: slot count is Ideal(n)");
-  _Bool five = t->nslots == 5;
-  V_ASSERT(five ? inv(t, 5) : inv(t, 11), "resize: invariant holds in the new storage");
-  int64_t post_v = 0; _Bool post_m = five ? model_get(t, 5, q, &post_v) : model_get(t, 11, q, &post_v);
-  V_ASSERT(post_m == pre_m && (!pre_m || post_v == pre_v) && t->nitems == n, "resize: the map is unchanged");
-  V_ASSERT(elem_ledger_ok && (five ? owns(t, 5) : owns(t, 11)), "resize: elements moved, not copied or dropped (C05)");
+  V_ASSERT(rn >= n, "resize below the number of items must raise");
+  V_ASSERT(rehash_calls == 1 && rehash_size == (rn <= 4 ? 5 : rn <= 9 ? 11 : 23), "resize: rehash to Ideal(n) requested once");
+  V_ASSERT(inv(t, NS) && owns(t, NS), "resize: nothing else touched");
 
 #elif OP == OP_CLEAR_SET
   Table_Resize(t, 0);
   V_ASSERT(Table_Len(t) == 0 && elem_live_count() == 0 && elem_ledger_ok, "resize(0): all keys and values finalised exactly once");
-  V_ASSERT(!Table_Mem(t, $(Elem, q, 0)) && Table_Iter_Init(t) == Terminal, "emptied table: no members");
-  Table_Set(t, $(Elem, k, 0), $(Elem, v, 0));
+  V_ASSERT(!Table_Mem(t, pk) && Table_Iter_Init(t) == Terminal, "emptied table: no members");
+  Table_Set(t, pk, $(Elem, v, 0));
   V_WITNESS("set after clear completed");
-  V_ASSERT(t->nitems == 1 && Table_Mem(t, $(Elem, k, 0)) && ((struct Elem*)Table_Get(t, $(Elem, k, 0)))->val == v, "an emptied table keeps working");
+  V_ASSERT(t->nitems == 1 && Table_Mem(t, pk) && ((struct Elem*)Table_Get(t, pk))->val == v, "an emptied table keeps working");
   V_ASSERT(elem_live_count() == 2 && elem_ledger_ok, "one key and one value live afterwards");
 
 #elif OP == OP_DEL
